@@ -95,22 +95,31 @@ func relsObs(rs []*release.Release) map[string]any {
 type backend struct {
 	name    string
 	d       driver.Driver
-	corrupt func(key string, labels map[string]string)
+	corrupt func(key string, labels map[string]string, body int)
 }
+
+// undecodable record bodies: not base64, empty, missing, one byte, the bare gzip magic, gzip magic + garbage
+var corruptBodies = []string{"!!not-base64!!", "", "\x00missing", "QQ==", "H4sI", "H4sIAAAAAAAA"}
 
 func newBackends() []backend {
 	cs1 := fake.NewSimpleClientset()
 	cs2 := fake.NewSimpleClientset()
 	return []backend{
 		{"mem", driver.NewMemory(), nil},
-		{"secrets", driver.NewSecrets(cs1.CoreV1().Secrets("default")), func(key string, labels map[string]string) {
-			o := &v1.Secret{ObjectMeta: metav1.ObjectMeta{Name: key, Labels: labels}, Data: map[string][]byte{"release": []byte("!!not-base64!!")}}
+		{"secrets", driver.NewSecrets(cs1.CoreV1().Secrets("default")), func(key string, labels map[string]string, body int) {
+			o := &v1.Secret{ObjectMeta: metav1.ObjectMeta{Name: key, Labels: labels}, Data: map[string][]byte{"release": []byte(corruptBodies[body])}}
+			if corruptBodies[body] == "\x00missing" {
+				o.Data = map[string][]byte{}
+			}
 			if _, err := cs1.CoreV1().Secrets("default").Create(context.Background(), o, metav1.CreateOptions{}); err != nil {
 				cs1.CoreV1().Secrets("default").Update(context.Background(), o, metav1.UpdateOptions{})
 			}
 		}},
-		{"configmaps", driver.NewConfigMaps(cs2.CoreV1().ConfigMaps("default")), func(key string, labels map[string]string) {
-			o := &v1.ConfigMap{ObjectMeta: metav1.ObjectMeta{Name: key, Labels: labels}, Data: map[string]string{"release": "!!not-base64!!"}}
+		{"configmaps", driver.NewConfigMaps(cs2.CoreV1().ConfigMaps("default")), func(key string, labels map[string]string, body int) {
+			o := &v1.ConfigMap{ObjectMeta: metav1.ObjectMeta{Name: key, Labels: labels}, Data: map[string]string{"release": corruptBodies[body]}}
+			if corruptBodies[body] == "\x00missing" {
+				o.Data = map[string]string{}
+			}
 			if _, err := cs2.CoreV1().ConfigMaps("default").Create(context.Background(), o, metav1.CreateOptions{}); err != nil {
 				cs2.CoreV1().ConfigMaps("default").Update(context.Background(), o, metav1.UpdateOptions{})
 			}
@@ -167,7 +176,13 @@ func applyOp(b backend, op map[string]any) (out any) {
 		for k, v := range op["labels"].(map[string]any) {
 			lb[k] = v.(string)
 		}
-		b.corrupt(key, lb)
+		body := 0
+		if f, ok := op["body"].(float64); ok {
+			body = int(f)
+		} else if i, ok := op["body"].(int); ok {
+			body = i
+		}
+		b.corrupt(key, lb, body)
 		return "ok"
 	}
 	return "bad-op"
@@ -214,7 +229,7 @@ func genStorageOps(r *Rng, n int, names []string, allowCorrupt bool) []map[strin
 			}
 			ops = append(ops, map[string]any{"kind": "query", "q": q})
 		default:
-			ops = append(ops, map[string]any{"kind": "corrupt", "key": key, "labels": map[string]any{"owner": "helm", "name": name, "status": "deployed", "version": fmt.Sprint(ver)}})
+			ops = append(ops, map[string]any{"kind": "corrupt", "key": key, "body": r.Intn(len(corruptBodies)), "labels": map[string]any{"owner": "helm", "name": name, "status": "deployed", "version": fmt.Sprint(ver)}})
 		}
 	}
 	return ops
